@@ -487,6 +487,35 @@ def run(pid, tier, spec):
                 if o.get("validation_cases"):
                     o["verdict"] = "inconclusive"
                     o["reason"] = "interpreter and real macro disagree on a witness (translator bug?): " + dis[0][:300]
+    # C05: negative corpus — programs every query macro must reject at compile time
+    if pid == "C05":
+        from .mirsym import progs
+        t1 = time.time()
+        neg = dict(name="negative-corpus: no-match / ambiguous OneOf through all five query macros", verdict="holds", reason="", queries=0, paths=0,
+                   what="10 real programs that must be rejected at compile time (query matching no archetype; OneOf matching two components of one archetype) x ecs_find!, ecs_find_borrow!, ecs_iter!, ecs_iter_borrow!, ecs_iter_destroy!",
+                   bounds="enumeration of 10 programs (not a solver task): the compile-error half of C05, observed on the real macros", functions=[], samples=[], validated_against_impl=0,
+                   task=dict(kind="negative"), assumes=[], wall_s=0.0, solver_s=0.0)
+        bad = []
+        for kind, needle in (("nomatch", "query matched no archetypes"), ("ambiguous", "ambiguous")):
+            for mac in ("ecs_find", "ecs_find_borrow", "ecs_iter", "ecs_iter_borrow", "ecs_iter_destroy"):
+                mod = "n_%s_%s" % (kind, mac)
+                failed, _, err = progs.expect_compile_error("neg_" + mod, progs.negative_module(mod, mac, kind), "")
+                neg["queries"] += 1
+                if failed and needle in err:
+                    neg["validated_against_impl"] += 1
+                else:
+                    bad.append("%s! accepted a query that must be a compile error (%s)%s" % (mac, kind, "" if not failed else ": rejected with another message: " + err[-200:]))
+        if bad:
+            neg["verdict"] = "violation"; neg["reason"] = bad[0]; neg["n_violated"] = len(bad)
+            os.makedirs(common.REPLAY_DIR, exist_ok=True)
+            path = os.path.join(common.REPLAY_DIR, "C05_negative_%s.json" % common.sha(bad[0]))
+            with open(path, "w") as f:
+                json.dump({"kind": "e2", "property": "C05", "task": {"kind": "negative"}, "obligation": bad, "how_to_replay": "/verif/check C05 --tier quick (rebuilds the 10 programs)"}, f, indent=1)
+            neg["replay_path"] = path
+        neg["wall_s"] = time.time() - t1
+        neg["paths"] = neg["queries"]
+        common.log("%-12s %-48s %5.0fs %s" % (neg["verdict"], "negative corpus (10 programs)", neg["wall_s"], neg["reason"][:150]))
+        results.append(neg)
     # replay counterexamples natively before they are reported
     for r in results:
         r.pop("validation_cases", None)
